@@ -86,7 +86,7 @@ def jobs_for(tier):
     jobs = []
     for parents in shapes:
         n = len(parents)
-        for a in assignments(n, 2, with_indexfile=True):
+        for a in assignments(n, 2 if (not quick or n <= 3) else 1, with_indexfile=True):
             nvar = sum(1 for c in a if c != "one")
             for recursive, auto, prefix in itertools.product((True, False), (True, False), (None, "P")):
                 if not recursive and nvar == 2 and a[0] == "one":
